@@ -824,7 +824,7 @@ func jpfToNumber(arguments []interface{}) (interface{}, error) {
 	}
 	if v, ok := arg.(string); ok {
 		conv, err := strconv.ParseFloat(v, 64)
-		if err != nil {
+		if err != nil || math.IsInf(conv, 0) || math.IsNaN(conv) {
 			return nil, nil
 		}
 		return conv, nil
